@@ -329,3 +329,20 @@ PROPS["C08"] = dict(
     min_labels=dict(quick=dict(fault_reported=12000, fault_absorbed=500, double_fault=3000, parse=200, serialize=150, patch_inplace=80, object_add=150)),
     assumptions=["only allocation calls made directly by json-c are failed", "at most 3000 indices per workload"],
 )
+
+PROPS["C20"] = dict(
+    harness="C20_fdio.cpp", level="fault_enumeration", wrap_io=True,
+    technique="fault/short-transfer enumeration: read() and write() are interposed at link time and follow generated scripts (per-call transfer sizes 1..request, injected EIO/EINTR/ENOSPC/EAGAIN/EBADF at call j); differential oracle against one in-memory parse call and against the serialisation; exhaustive chunk sizes and error positions for a 64-byte document",
+    level_text="documents (generated valid texts, 4-20 KB documents spanning several 4096-byte reads and ending exactly at a buffer boundary, possibly-invalid "
+               "texts, empty input) are delivered through scripted short reads, with and without an injected error, under generated depth limits; trees are "
+               "written through scripted short writes with and without an injected error: the read result must equal json_tokener_parse_ex on the same "
+               "bytes in one call with a fresh parser of that depth, the written bytes must equal the serialisation exactly once and in order, every failure "
+               "must be reported with a fresh retrievable message, and no descriptor or allocation may leak; unopenable paths and a memory-file round trip cover the file variants",
+    level_note="a write() returning 0 for a non-empty request is not scripted (not a condition POSIX produces for regular descriptors; the loop would not terminate)",
+    rule="(document or tree, transfer script); non-trivial = the script splits transfers or injects an error; distinct by hash of the case",
+    quick=[dict(mode="gen", cases=30000, workers=8, maxbytes=3000), dict(mode="small", enum=True, size=4290, workers=2)],
+    thorough=[dict(mode="gen", cases=2500000, workers=16, maxbytes=5000), dict(mode="small", enum=True, size=4290, workers=2),
+              dict(mode="gen", fuzz=True, secs=240, jobs=8, max_len=1024)],
+    min_labels=dict(quick=dict(read_valid=5000, read_long=2000, read_error_injected=2000, write_error_injected=2000, write_long=1000, file_variants=1500)),
+    assumptions=["EINTR is treated like any other read/write error (json_util.c does not retry; the property only demands that a failing write/read is reported)"],
+)
